@@ -143,8 +143,13 @@ class ComponentEnv:
             if task.done():
                 e = task.exception() if not task.cancelled() else asyncio.CancelledError()
                 exc = None if e is None else "%s: %s" % (type(e).__name__, e)
+            chk = getattr(step, "iteration_termination_checklist", None)     # LoopCombinatorStep only
+            try:
+                chk = None if chk is None else sorted({str(t) for v in chk.values() for t in v})
+            except Exception:          # not the mapping port -> set of tags any more: not observable
+                chk = None
             obs.append({"out": [proj_token(t) for t in pout.token_list], "terminated": bool(step.terminated),
-                        "done": task.done(), "exc": exc, "err": err})
+                        "done": task.done(), "exc": exc, "err": err, "chk": chk})
         if not task.done():
             task.cancel()
             with contextlib.suppress(BaseException):
